@@ -147,11 +147,11 @@ def c06():
     behs, _ = tlc_behaviours("c06", fam="FamA", filt="FiltA", mode="complete",
                              simulate=f"num={_n(chk, 500, 4000)}", workers=4)
     probe = lambda r: ["current_time", "completed_operations"]  # noqa: E731
-    n = _run_traces(chk, behs, "tlc-simulated", query_probe=probe)
+    n = _run_traces(chk, behs, "tlc-simulated", query_probe=probe, min_start_probe=True)
     rng = random.Random(chk.seed + 6)
     rb = [random_behaviour(rng, max_jobs=5, max_ops=5, max_m=4, durs=(1, 2, 3, 5, 8) if i % 2 else (0, 1, 2, 3))
           for i in range(_n(chk, 150, 1500))]
-    _run_traces(chk, rb, "random-large", start_tid=n + 1, query_probe=probe)
+    _run_traces(chk, rb, "random-large", start_tid=n + 1, query_probe=probe, min_start_probe=True)
     return chk.finish(
         "TLC: now' >= now and completed' >= completed for every accepted dispatch from every "
         "reachable state (no filter: all instances; filters: positive durations), now = makespan "
